@@ -8,19 +8,17 @@ pub mod h7 {
    use crate::common::*;
    ascent! {
       pub struct Prog;
-      relation r0(i64, i64);
+      relation r0(i64);
       relation r1(i64, i64);
-      relation r2(i64, i64, i64);
+      relation r2(i64);
       relation r3(i64, i64, i64);
-      relation r4(i64);
-      r2(v1, 3, v1) <-- r1(2, 0), r2(v0, v1, 3);
-      r3(v1, v4, v1) <-- r2(0, v0, v1), r3(v2, v3, v4), if ((*v2) != 4);
-      r4(v0) <-- r3(v0, v1, v2), if ((*v2) < 1);
-      r2(v0, v1, v2) <-- r1(v0, v1), r0(((*v0) + 1), v2);
-      r4(v0) <-- r4(3), if let Some(v0) = Some(1);
-      r2(v1, v3, v0) <-- if let Some(v0) = None::<i64>, r2(v0, v1, v0), r1(v2, ((*v1) + 1)), r1(v3, v0), if (v0 == 4);
-      r2(2, 1, 1);
-      r4(v1) <-- r2(v0, 3, 0), r1(v1, 1);
+      relation r4(i64, i64);
+      r2(v0) <-- r1(v0, v1), r1(v1, v1);
+      r3(v0, v1, v9) <-- let v9 = 3, r4(v0, v1), r4(v1, v9);
+      r4(2, 0) <-- let v0 = 4, r1(v1, v2) if ((*v1) < 5), if (v0 != 4), r1(v3, v4) if ((*v1) != 1) let v5 = ((*v1) + 1), r2(v6);
+      r4(((*v1) + 1), 3) <-- if let Some(v0) = None::<i64>, r1(3, v1) if (v0 <= 1), if ((*v1) < 6);
+      r2(((*v1) + 1)) <-- if let Some(v0) = Some(3), r4(v0, 3), r1(v0, v1), if ((*v1) < 6);
+      r4(v0, ((*v0) + 1)) <-- r1(v0, 1), if ((*v0) < 6);
    }
    pub struct Inst { p: Prog, pool: Option<ascent::rayon::ThreadPool> }
    pub fn make(pool: Option<usize>) -> Box<dyn Driver> {
@@ -31,11 +29,11 @@ pub mod h7 {
    impl Driver for Inst {
       fn load(&mut self, rel: usize, rows: &[Sexp], append: bool) -> Option<()> {
          match rel {
-         0 => { let v: Vec<(i64,i64,)> = parse_rows(rows)?; if append { self.p.r0.extend(v) } else { self.p.r0 = v } },
+         0 => { let v: Vec<(i64,)> = parse_rows(rows)?; if append { self.p.r0.extend(v) } else { self.p.r0 = v } },
          1 => { let v: Vec<(i64,i64,)> = parse_rows(rows)?; if append { self.p.r1.extend(v) } else { self.p.r1 = v } },
-         2 => { let v: Vec<(i64,i64,i64,)> = parse_rows(rows)?; if append { self.p.r2.extend(v) } else { self.p.r2 = v } },
+         2 => { let v: Vec<(i64,)> = parse_rows(rows)?; if append { self.p.r2.extend(v) } else { self.p.r2 = v } },
          3 => { let v: Vec<(i64,i64,i64,)> = parse_rows(rows)?; if append { self.p.r3.extend(v) } else { self.p.r3 = v } },
-         4 => { let v: Vec<(i64,)> = parse_rows(rows)?; if append { self.p.r4.extend(v) } else { self.p.r4 = v } },
+         4 => { let v: Vec<(i64,i64,)> = parse_rows(rows)?; if append { self.p.r4.extend(v) } else { self.p.r4 = v } },
             _ => return None,
          }
          Some(())
@@ -57,11 +55,18 @@ pub mod hp1 {
    ascent_par! {
       pub struct Prog;
       relation r0(i64, i64);
-      relation r1(i64, i64);
-      relation r2(i64, i64);
-      relation r3(i64, i64);
-      r3(v0, v8) <-- if let Some(v9) = Some(2), r2(v0, v1), r0(v1, v9) let v8 = ((*v0) + 1);
-      r2(v0, ((*v0) + 1)) <-- r0(v0, v1), r2(v0, 0), if ((*v0) < 6);
+      relation r1(i64);
+      relation r2(i64);
+      relation r3(i64);
+      r2(v0) <-- if let Some(v0) = Some(2), r1(0), if let Some(v1) = Some(v0);
+      r3(2) <-- r2(v0), r0(v0, v0);
+      r2(((*v0) + 1)) <-- r3(v0), if ((*v0) < 6);
+      r2(v0) <-- let v9 = 3, r0(v0, v1), r0(v1, v9);
+      r3(v0) <-- let v9 = 2, r0(v0, v1), r0(v1, v9);
+      r3(3);
+      r2(v0) <-- r1(v0), for v1 in 2..3;
+      r2(v0) <-- let v0 = 2, r2((v0 + 1));
+      r3(v1) <-- if let Some(v0) = Some(0), r0(v0, v0), r0(v0, v0), for v1 in 2..3;
    }
    pub struct Inst { p: Prog, pool: Option<ascent::rayon::ThreadPool> }
    pub fn make(pool: Option<usize>) -> Box<dyn Driver> {
@@ -73,9 +78,9 @@ pub mod hp1 {
       fn load(&mut self, rel: usize, rows: &[Sexp], append: bool) -> Option<()> {
          match rel {
          0 => { let v: Vec<(i64,i64,)> = parse_rows(rows)?; if !append { self.p.r0 = Default::default(); } for x in v { self.p.r0.push(x); } },
-         1 => { let v: Vec<(i64,i64,)> = parse_rows(rows)?; if !append { self.p.r1 = Default::default(); } for x in v { self.p.r1.push(x); } },
-         2 => { let v: Vec<(i64,i64,)> = parse_rows(rows)?; if !append { self.p.r2 = Default::default(); } for x in v { self.p.r2.push(x); } },
-         3 => { let v: Vec<(i64,i64,)> = parse_rows(rows)?; if !append { self.p.r3 = Default::default(); } for x in v { self.p.r3.push(x); } },
+         1 => { let v: Vec<(i64,)> = parse_rows(rows)?; if !append { self.p.r1 = Default::default(); } for x in v { self.p.r1.push(x); } },
+         2 => { let v: Vec<(i64,)> = parse_rows(rows)?; if !append { self.p.r2 = Default::default(); } for x in v { self.p.r2.push(x); } },
+         3 => { let v: Vec<(i64,)> = parse_rows(rows)?; if !append { self.p.r3 = Default::default(); } for x in v { self.p.r3.push(x); } },
             _ => return None,
          }
          Some(())
@@ -88,6 +93,63 @@ pub mod hp1 {
    }
 }
 
+#[allow(unused, non_snake_case, clippy::all)]
+pub mod ha0 {
+   use ascent::*;
+   use ascent::aggregators::*;
+   use ascent::lattice::{Dual, set::Set};
+   use crate::common::*;
+   ascent! {
+      pub struct Prog;
+      relation r0(i64, i64);
+      relation r1(i64);
+      relation r2(i64);
+      relation r3(i64, i64);
+      relation r4(i64);
+      relation r5(i64, i64);
+      relation r6(i64);
+      relation r7(i64);
+      r1(v0) <-- for v0 in 2..2, r0((v0 + 0), 2);
+      r2(v1) <-- r1(v0), r2(v1);
+      r3(3, 1) <-- r2(1);
+      r4(v0) <-- for v0 in 2..3, r3(v0, v0);
+      r5(v1, (v0 + 1)) <-- if let Some(v0) = Some(0), r4((v0 + 1)), if let Some(v1) = Some(v0), r5((v0 + 0), v1), let v2 = 0, if (v0 < 6);
+      r5(v0, v1) <-- r0(v0, v1) if ((*v0) < 2), r5(v1, v2) if ((*v2) != (*v1));
+      r5(v1, v0) <-- r3(v0, 2), for v1 in [2, 2, 2];
+      r1(0);
+      r3(v0, v1) <-- for v0 in [2], r3(v0, v1);
+      r6(v0) <-- r2(v0), agg v21 = max(v20) in r0(v20, (*v0));
+      r7(v32) <-- r4(v0), r0(v31, v32), agg v21 = min(v20) in r3(v20, _);
+   }
+   pub struct Inst { p: Prog, pool: Option<ascent::rayon::ThreadPool> }
+   pub fn make(pool: Option<usize>) -> Box<dyn Driver> {
+      let pool = pool.map(|n| ascent::rayon::ThreadPoolBuilder::new().num_threads(n).build().unwrap());
+      let p = match &pool { Some(pl) => pl.install(|| Default::default()), None => Default::default() };
+      Box::new(Inst { p, pool })
+   }
+   impl Driver for Inst {
+      fn load(&mut self, rel: usize, rows: &[Sexp], append: bool) -> Option<()> {
+         match rel {
+         0 => { let v: Vec<(i64,i64,)> = parse_rows(rows)?; if append { self.p.r0.extend(v) } else { self.p.r0 = v } },
+         1 => { let v: Vec<(i64,)> = parse_rows(rows)?; if append { self.p.r1.extend(v) } else { self.p.r1 = v } },
+         2 => { let v: Vec<(i64,)> = parse_rows(rows)?; if append { self.p.r2.extend(v) } else { self.p.r2 = v } },
+         3 => { let v: Vec<(i64,i64,)> = parse_rows(rows)?; if append { self.p.r3.extend(v) } else { self.p.r3 = v } },
+         4 => { let v: Vec<(i64,)> = parse_rows(rows)?; if append { self.p.r4.extend(v) } else { self.p.r4 = v } },
+         5 => { let v: Vec<(i64,i64,)> = parse_rows(rows)?; if append { self.p.r5.extend(v) } else { self.p.r5 = v } },
+         6 => { let v: Vec<(i64,)> = parse_rows(rows)?; if append { self.p.r6.extend(v) } else { self.p.r6 = v } },
+         7 => { let v: Vec<(i64,)> = parse_rows(rows)?; if append { self.p.r7.extend(v) } else { self.p.r7 = v } },
+            _ => return None,
+         }
+         Some(())
+      }
+      fn run(&mut self) { match &self.pool { Some(pl) => { let p = &mut self.p; pl.install(|| p.run()) }, None => self.p.run() } }
+      fn run_here(&mut self) { self.p.run() }
+      fn run_timeout(&mut self, k: usize) -> Option<bool> { let _ = k; None }
+      fn dump(&self) -> String { vec![dump_rel(0, self.p.r0.iter().map(Row::render).collect()), dump_rel(1, self.p.r1.iter().map(Row::render).collect()), dump_rel(2, self.p.r2.iter().map(Row::render).collect()), dump_rel(3, self.p.r3.iter().map(Row::render).collect()), dump_rel(4, self.p.r4.iter().map(Row::render).collect()), dump_rel(5, self.p.r5.iter().map(Row::render).collect()), dump_rel(6, self.p.r6.iter().map(Row::render).collect()), dump_rel(7, self.p.r7.iter().map(Row::render).collect())].join(" | ") }
+      fn iters(&self) -> String { format!("iters {}", self.p.scc_iters.iter().map(|x| x.to_string()).collect::<Vec<_>>().join(" ")) }
+   }
+}
+
 fn main() {
-   common::main_loop(&[("h7", h7::make as common::Factory), ("hp1", hp1::make as common::Factory)]);
+   common::main_loop(&[("h7", h7::make as common::Factory), ("hp1", hp1::make as common::Factory), ("ha0", ha0::make as common::Factory)]);
 }
